@@ -20,7 +20,9 @@ func initWaitGroup() {
 			if nVal.IsReference() {
 				return value.Undefined, value.Ref(value.NewError(value.OutOfRangeErrorClass, "n is too large"))
 			}
-			self.Add(int(nVal.AsSmallInt()))
+			if err := self.Add(int(nVal.AsSmallInt())); !err.IsUndefined() {
+				return value.Undefined, err
+			}
 			return args[0], value.Undefined
 		},
 		DefWithParameters(1),
@@ -35,7 +37,9 @@ func initWaitGroup() {
 			if nVal.IsReference() {
 				return value.Undefined, value.Ref(value.NewError(value.OutOfRangeErrorClass, "n is too large"))
 			}
-			self.Add(int(nVal.AsSmallInt()))
+			if err := self.Add(int(nVal.AsSmallInt())); !err.IsUndefined() {
+				return value.Undefined, err
+			}
 			return value.Nil, value.Undefined
 		},
 		DefWithParameters(1),
@@ -49,7 +53,9 @@ func initWaitGroup() {
 			if nVal.IsReference() {
 				return value.Undefined, value.Ref(value.NewError(value.OutOfRangeErrorClass, "n is too large"))
 			}
-			self.Remove(int(nVal.AsSmallInt()))
+			if err := self.Remove(int(nVal.AsSmallInt())); !err.IsUndefined() {
+				return value.Undefined, err
+			}
 			return value.Nil, value.Undefined
 		},
 		DefWithParameters(1),
@@ -59,7 +65,9 @@ func initWaitGroup() {
 		"start",
 		func(_ *Thread, args []value.Value) (value.Value, value.Value) {
 			self := (*value.WaitGroup)(args[0].Pointer())
-			self.Start()
+			if err := self.Start(); !err.IsUndefined() {
+				return value.Undefined, err
+			}
 			return value.Nil, value.Undefined
 		},
 	)
@@ -68,7 +76,9 @@ func initWaitGroup() {
 		"end",
 		func(_ *Thread, args []value.Value) (value.Value, value.Value) {
 			self := (*value.WaitGroup)(args[0].Pointer())
-			self.End()
+			if err := self.End(); !err.IsUndefined() {
+				return value.Undefined, err
+			}
 			return value.Nil, value.Undefined
 		},
 	)
